@@ -19,11 +19,6 @@ import (
 
 // ------------------------------------------------------------------ fan
 
-type c15Sub struct {
-	F string `json:"f"`
-	Q int    `json:"q"`
-}
-
 type c15FanClient struct {
 	Cid  string   `json:"cid"`
 	Subs []c15Sub `json:"subs"`
